@@ -5,7 +5,7 @@
    LzWindowProofs.v, LzmaAbsProofs.v) *)
 From LzVerif Require Import Base.Bytes Codec.Store Codec.Range Codec.ProbProofs Codec.LzWindow Codec.LzmaDec
   Codec.LzmaEnc Codec.LzmaAbs Codec.LzWindowProofs Codec.ProgProofs Codec.LzmaAbsProofs
-  Codec.RangeEncProofs Codec.RangeProofs Codec.LzmaSymProofs Codec.LzmaRoundtrip.
+  Codec.RangeEncProofs Codec.RangeProofs Codec.LzmaSymProofs Codec.LzmaRoundtrip Codec.LzmaWriters.
 Ltac Zify.zify_post_hook ::= Z.div_mod_to_equations.
 
 Lemma ev_ok_same ev : RangeEncProofs.ev_ok ev = LzmaSymProofs.ev_ok ev.
@@ -100,4 +100,50 @@ Proof.
   assert (Hzl' : zlen hist' = zlen hist + Z.of_nat n).
   { destruct Hhr as (Hl0 & _). destruct Hhr' as (Hl1 & _). lia. }
   repeat split; auto; lia.
+Qed.
+
+(* ---- the initial states satisfy the hypotheses (non-vacuity helpers) -------------------------- *)
+Lemma lzwin_new_rel size : 0 < size -> size mod 16 = 0 -> Rel (lzwin_new size None) [].
+Proof.
+  intros Hs H16. unfold lzwin_new. constructor; cbn [w_buf w_size w_start w_pos w_full w_limit w_pending_len].
+  - split; assumption.
+  - lia.
+  - unfold zlen; cbn [length]. split; [lia|]. split; [lia|]. intros _. reflexivity.
+  - lia.
+  - reflexivity.
+  - intros d Hd. lia.
+  - intros _. unfold bget, aget. cbn [w_buf]. rewrite pget_leaf. reflexivity.
+  - lia.
+Qed.
+
+Lemma aget_aset_list_range l : forall t i j,
+  (forall k, 0 <= aget 0 t k < 256) -> bytes_ok l = true -> 0 <= i -> 0 <= aget 0 (aset_list t i l) j < 256.
+Proof.
+  induction l as [|x r IH]; intros t i j Ht Hb Hi; cbn [aset_list]; [apply Ht|].
+  cbn [bytes_ok forallb] in Hb. apply andb_true_iff in Hb as [Hx Hr].
+  unfold is_byte in Hx. apply andb_true_iff in Hx as [Hx0 Hx1]. apply Z.leb_le in Hx0. apply Z.ltb_lt in Hx1.
+  apply IH; [|exact Hr|lia].
+  intros k. destruct (Z.eq_dec k i) as [->|Hne].
+  - rewrite agss. lia.
+  - destruct (Z.ltb_spec k 0) as [Hneg|Hpos].
+    + (* negative keys share cell 0 of the trie; the value there is a byte either way *)
+      unfold aget, aset, akey. replace (Z.to_pos (k + 1)) with 1%positive by (destruct (k + 1) eqn:E; try reflexivity; lia).
+      destruct (Pos.eq_dec (Z.to_pos (i + 1)) 1) as [E|E].
+      * rewrite E, pgss. lia.
+      * rewrite pgso by assumption. specialize (Ht (-1)). unfold aget, akey in Ht. cbn in Ht. exact Ht.
+    + rewrite agso by lia. apply Ht.
+Qed.
+
+Lemma in_skipn {A} n : forall (l : list A) x, In x (skipn n l) -> In x l.
+Proof. induction n as [|k IH]; intros l x H; [exact H|]. destruct l as [|y t]; [exact H|]. right. apply IH. exact H. Qed.
+
+Lemma data_ok_new dict preset data : bytes_ok preset = true -> bytes_ok data = true ->
+  data_ok (LzmaWriters.ehist_new dict preset data).
+Proof.
+  intros Hp Hd i. unfold LzmaWriters.ehist_new, hget; cbn [h_data]. unfold LzmaWriters.array_of_list.
+  apply aget_aset_list_range; [| |lia].
+  - intros k. unfold aget. rewrite pget_leaf. lia.
+  - unfold bytes_ok in *. rewrite forallb_app. rewrite Hd, andb_true_r.
+    unfold LzmaWriters.preset_kept, lastn. rewrite forallb_forall in Hp |- *.
+    intros x Hx. apply Hp. eapply in_skipn; exact Hx.
 Qed.
